@@ -152,8 +152,8 @@ def step_rules(ctx, m, owners):
         ctx.check(len(sw) == 1 and sq.body.dominates(sw[0].b, a.b) and (sw[0].b != a.b or True), "step", tag + "|fresh-snapshot", a.loc(), "the recorded snapshot is the one refreshed in this step")
         # no other writers of the record vectors
         for g in ctx.prog.find(crate="bourse_de", adt=owner):
-            if g.impl_trait is not None or g.name in ("step", "new"):
-                continue
+            if g.impl_trait is not None or g.name in ("step", "new") or not g.pub:
+                continue  # private helpers are accounted to the public function that calls them (transitive summaries)
             sm = m.w.effects.summary(g)
             bad = [w for w in sm["writes"] if w[0] == 1 and w[1] and w[1][0] in (rec_f, tv_f)]
             ctx.check(not bad, "writers", "%s::%s" % (owner, g.name), ctx.loc(g), "%s::%s does not write the recorded series" % (owner, g.name), "%s::%s writes %s" % (owner, g.name, bad))
